@@ -891,18 +891,27 @@ def interrupted_extension_advertises_nothing(ctx, rule='interrupted-extension-ad
     advertised dimension (m_k = 0: "not initialised", which the entry test of the next call rejects) before its first call that
     can reach a user operator, and advertise the new one only after the last."""
     n = 0
+    ncv = 0
     seen = set()
     for fn in ctx.F.concrete():
-        if fn.cls not in ('Spectra::Arnoldi', 'Spectra::Lanczos') or fn.name != 'factorize_from' or not fn.cfg or fn.mangled in seen:
+        if fn.cls not in ('Spectra::Arnoldi', 'Spectra::Lanczos') or fn.name not in ('factorize_from', 'compress_V') or not fn.cfg or fn.mangled in seen:
             continue
         seen.add(fn.mangled)
         risky = [x for x in fn.walk() if x['k'] == 'CXXMemberCallExpr' and x.get('callee') in ('perform_op', 'inner_product', 'adjoint_product', 'trans_product', 'norm', 'expand_basis')
                  and (x.get('callee') == 'expand_basis' or 'm_op' in fn.s(x)[:12])]
         if not risky:
+            if fn.name == 'compress_V':
+                continue            # a restart update that reaches no user operator cannot be interrupted by one
             raise AnalysisBroken('%s: no operator application found' % fn.qname)
+        if fn.name == 'compress_V':
+            # [session 4, F51] the restart update: V, f (and H, by compress_H) are already those of the compressed factorization
+            # when the norm of the new residual -- an application of B -- is taken; only the writes that precede the risky
+            # call matter: every risky call must run with the dimension withdrawn, and it is advertised again afterwards
+            ncv += 1
         kw = [x for x in fn.walk() if x['k'] == 'BinaryOperator' and x.get('op') == '=' and sym(fn, x['c'][0], inline=False) == ('F', 'm_k')]
         zero = [x for x in kw if sym(fn, x['c'][1], inline=False) in (('lit', '0'), ('ctor', 'long', ('lit', '0')))]
         final = [x for x in kw if x not in zero]
+        who = '%s::%s' % (fn.cls.replace('Spectra::', ''), fn.name)
         zid = set(x['id'] for x in zero)
         bad = [r for r in risky if fn.pos_of(r) and not paths.dominated_by(fn, fn.pos_of(r), lambda n_: n_['id'] in zid)]
         # the new dimension is advertised only after the last risky call: no risky call reachable from a non-zero write of m_k
@@ -911,15 +920,17 @@ def interrupted_extension_advertises_nothing(ctx, rule='interrupted-extension-ad
             rid = set(r['id'] for r in risky)
             if paths.search(fn, [fn.pos_of(w)], stop=lambda n_: False, target=lambda n_: n_['id'] in rid) is not None:
                 late.append(w)
-        n += 1
+        n += 1 if fn.name == 'factorize_from' else 0
         ok = bool(zero) and not bad and not late and bool(final)
-        ctx.check(ok, rule, '%s::factorize_from' % fn.cls.replace('Spectra::', ''), fn.qname,
+        ctx.check(ok, rule, who, fn.qname,
                   'the advertised dimension is withdrawn before the first of %d call(s) that can reach a user operator and assigned again after the last' % len(risky) if ok else
                   ('%d call(s) that can reach a user operator (first: `%s`) run while the object still advertises its old dimension: an exception there leaves k with the residual of a later step, '
                    'and a following compute() builds on it and reports Successful with wrong pairs' % (len(bad) if zero else len(risky), fn.s((bad or risky)[0])[:40])) if not late else
                   'the new dimension is advertised before the last call that can reach a user operator')
     if n < 2:
         raise AnalysisBroken('only %d factorize_from members analysed' % n)
+    if ncv < 1:
+        raise AnalysisBroken('no compress_V member with a call that reaches the B operator analysed')
 
 
 def projection_coefficient_orientation(ctx, rule='inner-product-conjugates-the-basis-vector', min_instances=4):
